@@ -279,3 +279,33 @@ package entry
 //@     invariant forall k string :: has(newMap.(*OrderedMap).values, k) && !has(o.values, k) ==> exists i int :: 0 <= i && i < $k && other.(*OrderedMap).keys[i] == k
 //@     lockinvariant held[newMap.(*OrderedMap).lock] == 0
 //@     loopmodifies newMap.(*OrderedMap).keys, mapof(newMap.(*OrderedMap).values)
+
+// The fetcher (concurrent, condition variables) is outside the contracts so far: its result is assumed to be a list of
+// well-formed entries; nothing else is assumed about which entries it returns.
+//@ func FetchAll
+//@   trusted
+//@   ensures validSlice(result) && (result == nil || fresh(result))
+
+//@ func FetchParallel
+//@   trusted
+//@   ensures validSlice(result) && (result == nil || fresh(result))
+
+//@ func Difference
+//@   requires validSlice(a) && validSlice(b)
+//@   ensures validSlice(result) && (result == nil || fresh(result)) && len(result) <= len(b)
+//@   ensures [difference-elements-come-from-b-and-are-not-in-a] forall i int :: 0 <= i && i < len(result) ==> (exists j int :: 0 <= j && j < len(b) && result[i] == b[j]) && (forall q int :: 0 <= q && q < len(a) ==> ehash(a[q]) != ehash(result[i]))
+//@   ensures [difference-covers-b-minus-a] forall j int :: 0 <= j && j < len(b) ==> (exists q int :: 0 <= q && q < len(a) && ehash(a[q]) == ehash(b[j])) || (exists i int :: 0 <= i && i < len(result) && ehash(result[i]) == ehash(b[j]))
+//@   loop 0
+//@     invariant fresh(existing) && fresh(processed) && existing != processed
+//@     invariant forall s string :: !has(processed, s)
+//@     invariant forall q int :: 0 <= q && q < $k ==> has(existing, ehash(a[q])) && existing[ehash(a[q])]
+//@     invariant forall s string :: has(existing, s) && existing[s] ==> exists q int :: 0 <= q && q < $k && ehash(a[q]) == s
+//@   loop 1
+//@     invariant fresh(existing) && fresh(processed) && existing != processed
+//@     invariant forall q int :: 0 <= q && q < len(a) ==> has(existing, ehash(a[q])) && existing[ehash(a[q])]
+//@     invariant forall s string :: has(existing, s) && existing[s] ==> exists q int :: 0 <= q && q < len(a) && ehash(a[q]) == s
+//@     invariant validSlice(diff) && (diff == nil || fresh(diff)) && len(diff) <= $k && off(diff) == 0
+//@     invariant forall i int :: 0 <= i && i < len(diff) ==> (exists j int :: 0 <= j && j < $k && diff[i] == b[j]) && (forall q int :: 0 <= q && q < len(a) ==> ehash(a[q]) != ehash(diff[i]))
+//@     invariant forall s string :: has(processed, s) && processed[s] ==> (exists i int :: 0 <= i && i < len(diff) && ehash(diff[i]) == s)
+//@     invariant forall i int :: 0 <= i && i < len(diff) ==> has(processed, ehash(diff[i])) && processed[ehash(diff[i])]
+//@     invariant forall j int :: 0 <= j && j < $k ==> (exists q int :: 0 <= q && q < len(a) && ehash(a[q]) == ehash(b[j])) || (exists i int :: 0 <= i && i < len(diff) && ehash(diff[i]) == ehash(b[j]))
